@@ -21,14 +21,75 @@ func checkClosureFn(p *core.Prog, r *core.Report, rule, name string, minDist int
 	r.Touch(core.FuncName(fn))
 	mg := p.Named(pkgMani, "ModuleGraph")
 	idxF, revF := core.FieldOf(mg, "moduleIndex"), core.FieldOf(mg, "indexIndex")
-	var sp *ssa.Call
-	core.Instrs(fn, func(in ssa.Instruction) {
-		if c, ok := in.(*ssa.Call); ok {
-			if cl := core.CalleeOf(c); cl != nil && cl.Name() == "ShortestPaths" {
-				sp = c
+	// the distances: the second result of graph.ShortestPaths called in fn — or in a helper of the package that fn
+	// hands its module name to and whose result fn uses as the distances
+	findSP := func(f *ssa.Function) *ssa.Call {
+		var c0 *ssa.Call
+		core.Instrs(f, func(in ssa.Instruction) {
+			if c, ok := in.(*ssa.Call); ok {
+				if cl := core.CalleeOf(c); cl != nil && cl.Name() == "ShortestPaths" {
+					c0 = c
+				}
 			}
-		}
-	})
+		})
+		return c0
+	}
+	holder, nameParam := fn, ssa.Value(fn.Params[1])
+	sp := findSP(fn)
+	var dist ssa.Value
+	if sp == nil {
+		core.Instrs(fn, func(in ssa.Instruction) {
+			hc, ok := in.(*ssa.Call)
+			if !ok || sp != nil {
+				return
+			}
+			h := core.StaticFn(hc.Common())
+			if h == nil || h.Blocks == nil || h.Pkg != fn.Pkg || h.Parent() != nil {
+				return
+			}
+			hsp := findSP(h)
+			if hsp == nil {
+				return
+			}
+			// which result of h carries ShortestPaths' distances, on every return that is not the error return
+			resIdx := -1
+			okAll := true
+			core.Instrs(h, func(x ssa.Instruction) {
+				ret, ok := x.(*ssa.Return)
+				if !ok {
+					return
+				}
+				vals := core.ReturnValues(ret)
+				if !core.ReturnsNilError(ret) {
+					return
+				}
+				for i, v := range vals {
+					if ex, ok := v.(*ssa.Extract); ok && ex.Tuple == ssa.Value(hsp) && ex.Index == 1 {
+						if resIdx >= 0 && resIdx != i {
+							okAll = false
+						}
+						resIdx = i
+					}
+				}
+			})
+			if resIdx < 0 || !okAll {
+				return
+			}
+			// the module name handed to h
+			for i, a := range hc.Call.Args {
+				if core.SkipConv(a) == ssa.Value(fn.Params[1]) && i < len(h.Params) {
+					nameParam = h.Params[i]
+				}
+			}
+			for _, ref := range *hc.Referrers() {
+				if ex, ok := ref.(*ssa.Extract); ok && ex.Index == resIdx {
+					dist = ex
+				}
+			}
+			sp, holder = hsp, h
+			r.Touch(core.FuncName(h))
+		})
+	}
 	if sp == nil {
 		core.Undecide("%s: no ShortestPaths call", name)
 	}
@@ -39,15 +100,16 @@ func checkClosureFn(p *core.Prog, r *core.Report, rule, name string, minDist int
 		srcV = ex.Tuple // `idx, found := g.moduleIndex[name]`
 	}
 	if lk, ok := srcV.(*ssa.Lookup); ok {
-		if f, _ := core.LoadedField(lk.X); f == idxF && core.SkipConv(lk.Index) == ssa.Value(fn.Params[1]) {
+		if f, _ := core.LoadedField(lk.X); f == idxF && core.SkipConv(lk.Index) == nameParam {
 			okSrc = true
 		}
 	}
 	r.Check(okSrc, rule, name+"/source", "distances are computed from the vertex of the named module", "ShortestPaths source is not moduleIndex[moduleName]", p.Pos(sp.Pos()))
-	var dist ssa.Value
-	for _, ref := range *sp.Referrers() {
-		if ex, ok := ref.(*ssa.Extract); ok && ex.Index == 1 {
-			dist = ex
+	if holder == fn {
+		for _, ref := range *sp.Referrers() {
+			if ex, ok := ref.(*ssa.Extract); ok && ex.Index == 1 {
+				dist = ex
+			}
 		}
 	}
 	if dist == nil {
